@@ -425,6 +425,7 @@ func checkC15(c *Ctx) {
 	wgOwner := map[string]bool{"fun.WaitGroup": true}
 	condRules(c, wgOwner, map[string]int{"W1": 1, "W2": 1, "W2b": 1, "W3": 1, "W4": 2, "W6": 1, "W8": 1})
 	ruleL4(c, wgOwner, 3)
+	ruleU10(c, map[string]bool{"fun": true}, 1)
 	// what the waiter of Launch/StartGroup waits for: every started operation is counted before it starts
 	ruleG2(c)
 }
